@@ -1026,7 +1026,11 @@ func c40FallbackValue(v ssa.Value, at *ssa.BasicBlock, search *ssa.Call, latest 
 	}
 	for _, l := range latest {
 		if v == ssa.Value(l) {
-			return true, "latest entry"
+			// the latest entry stands in only where the search was made and found nothing
+			if core.KnownNil(core.FactsAt(at), search) == 1 {
+				return true, "latest entry, the search having returned nil"
+			}
+			return false, "the latest entry is used on a path where the search did not come back empty (a round before a later block's start would get the later block)"
 		}
 	}
 	if v == ssa.Value(search) {
